@@ -208,7 +208,7 @@ def run(res, tier, seed):
     all_trace = os.path.join(wd, "all.trace.ndjson")
     seen = set()
     forged = []
-    n_server = n_prescribed = n_forged_total = n_forged_full = 0
+    n_server = n_prescribed = n_forged_total = n_forged_full = n_chain = 0
     apex = None
     with open(all_trace, "w") as out:
         for src, t in traces:
@@ -217,6 +217,13 @@ def run(res, tier, seed):
                 if e["ev"] == "reset":
                     pending = e
                     apex = e["apex"]
+                    continue
+                if e["ev"] == "chain":
+                    n_chain += 1
+                    if pending is not None:
+                        out.write(json.dumps(pending, separators=(",", ":")) + "\n")
+                        pending = None
+                    out.write(json.dumps(e, separators=(",", ":")) + "\n")
                     continue
                 if e["origin"] in ("forged", "forged-full"):
                     n_forged_total += 1
@@ -257,6 +264,9 @@ def run(res, tier, seed):
     res.extra["wildcard_claims_offered_with_riders(claim x rider option)"] = n_rider_units
     if not n_rider_units:
         raise vlib.ToolError("no wildcard claim was offered with a rider RRset (no zone with nested wildcards)")
+    res.extra["published_chains_audited"] = n_chain
+    if not n_chain:
+        raise vlib.ToolError("no published NSEC chain was audited")
     if not n_forged_full:
         raise vlib.ToolError("the expanded-NSEC fault was never injected (no zone with a wildcard reached the whole validator)")
     confirmed = {ev_key(m["event"]) for m in mism if m["event"]["origin"] == "forged"}
@@ -265,6 +275,15 @@ def run(res, tier, seed):
         raise vlib.ToolError(f"Gen_Nsec and Trace_Nsec disagree on {len(missing)} offered proofs, e.g. {sorted(missing)[0][:400]}")
     examples = {}
     for m in mism:
+        if m["event"]["ev"] == "chain":
+            j = m["judge"]
+            rs = lambda xs: sorted(rec_str(x) for x in xs)
+            mo, eo = {nm(x["owner"]) for x in j["missing"]}, {nm(x["owner"]) for x in j["extra"]}
+            fields = {"what": "record-differs" if mo & eo else "names"}
+            detail = {"missing(expected, not published)": rs(j["missing"]), "extra(published, not expected)": rs(j["extra"])}
+            res.mismatch("published-chain-wrong", fields, {"chain": detail, "case": m["case"]})
+            examples.setdefault("published-chain-wrong:" + fields["what"], detail)
+            continue
         cl = classify(m)
         if not cl:
             raise vlib.ToolError("monitor rejected an event without a reason: " + json.dumps(m)[:600])
